@@ -24,6 +24,23 @@ pub struct Run {
     pub input: String,
     pub yaml: String,
     pub records: usize,
+    /// what each statement record says in the statement's own terms (known before the cell text
+    /// was written), in output order; empty when the generator does not know
+    #[serde(default)]
+    pub intended: Vec<Intent>,
+}
+
+/// (negative, mantissa, scale)
+pub type Num = (bool, u64, u32);
+
+#[derive(Clone, Debug, PartialEq, Serialize, Deserialize, Hash, Default)]
+pub struct Intent {
+    /// signed movement of the configured account
+    pub amount: Option<Num>,
+    /// stated balance of the account after the record
+    pub balance: Option<Num>,
+    /// fee booked to Expenses:Commissions
+    pub charge: Option<Num>,
 }
 
 // ---------- adversarial text ----------
@@ -101,6 +118,43 @@ fn dec_text(r: &mut Rng, allow_group: bool) -> String {
         _ => r.range(1_000_000, 99_999_999_999),
     };
     crate::ledger::num_text(m, scale, allow_group && r.chance(1, 2))
+}
+
+fn gen_num(r: &mut Rng) -> (u64, u32) {
+    let scale = *r.pick(&[0u32, 0, 1, 2, 2, 2, 3, 5]);
+    let m = match r.below(8) {
+        0 => 0,
+        1..=3 => r.range(1, 999),
+        4..=5 => r.range(1000, 999_999),
+        _ => r.range(1_000_000, 99_999_999_999),
+    };
+    (m as u64, scale)
+}
+
+/// A money cell of a CSV statement for the number (neg, m, scale): bare, or with a commodity
+/// prefix (`$`, CHF, USD) and the minus sign before the prefix or after it, with or without
+/// grouping commas: -1,950.25  -$1.46  $-1,950.25  -USD 5  USD -5  USD-5
+fn money_cell(r: &mut Rng, st: &mut Stats, n: Num) -> String {
+    let (neg, m, scale) = n;
+    let body = crate::ledger::num_text(m as i64, scale, r.chance(1, 2));
+    let minus = if neg { "-" } else { "" };
+    let (text, shape) = match r.below(6) {
+        0 | 1 => (format!("{}{}", minus, body), "bare"),
+        2 | 3 => {
+            let sym = *r.pick(&["$", "$", "CHF ", "USD ", "USD", "EUR "]);
+            if r.chance(1, 2) {
+                (format!("{}{}{}", minus, sym, body), "minus_before_prefix")
+            } else {
+                (format!("{}{}{}", sym, minus, body), "minus_after_prefix")
+            }
+        }
+        4 => (format!("{}{} {}", minus, body, r.pick(&["CHF", "USD"])), "suffix"),
+        _ => (format!("{}{}", minus, body), "bare"),
+    };
+    if neg {
+        st.count(&format!("csv_negative_cell:{}", shape));
+    }
+    text
 }
 
 fn precisions_yaml(r: &mut Rng, comms: &[&str]) -> String {
@@ -193,7 +247,7 @@ fn gen_camt(r: &mut Rng, st: &mut Stats) -> Run {
     writeln!(y, "  - matcher:\n      payee: \"Okane\"\n    account: \"Assets:Wire:Money Bank\"\n    pending: true").unwrap();
     // the opening-balance transaction is a record of the statement as well
     let has_opening = x.contains("OPBD");
-    Run { importer: "camt".into(), path: "in.xml".into(), input: x, yaml: y, records: records + if has_opening { 1 } else { 0 } }
+    Run { importer: "camt".into(), path: "in.xml".into(), input: x, yaml: y, records: records + if has_opening { 1 } else { 0 }, intended: vec![] }
 }
 
 // ---------- CSV ----------
@@ -211,11 +265,14 @@ fn gen_csv(r: &mut Rng, st: &mut Stats) -> Run {
     let layout = r.below(3);
     let mut t = String::new();
     let mut y = String::new();
-    writeln!(y, "path: in.csv\nencoding: UTF-8\naccount: {}\naccount_type: {}\noperator: \"Bank (fee)\"\ncommodity: CHF", yaml_str(*r.pick(&["Assets:Okane Bank", "Liabilities:Okane Card"])), r.pick(&["asset", "liability"])).unwrap();
+    let liability = r.chance(1, 2);
+    writeln!(y, "path: in.csv\nencoding: UTF-8\naccount: {}\naccount_type: {}\noperator: \"Bank (fee)\"\ncommodity: CHF", yaml_str(*r.pick(&["Assets:Okane Bank", "Liabilities:Okane Card"])), if liability { "liability" } else { "asset" }).unwrap();
     writeln!(y, "format:\n  date: \"%Y-%m-%d\"").unwrap();
-    if r.chance(1, 3) {
+    let new_to_old = r.chance(1, 3);
+    if new_to_old {
         writeln!(y, "  row_order: new_to_old").unwrap();
     }
+    let mut intended: Vec<Intent> = Vec::new();
     let p = precisions_yaml(r, &["CHF", "EUR", "USD"]);
     y.push_str(&p);
     match layout {
@@ -230,13 +287,25 @@ fn gen_csv(r: &mut Rng, st: &mut Stats) -> Run {
                 st.count(&format!("text:payee:{}", ptag));
                 st.count(&format!("text:note:{}", ntag));
                 st.count(&format!("text:commodity:{}", ctag));
-                let amount = match r.below(4) {
-                    0 => format!("-{}", dec_text(r, true)),
-                    1 => format!("{} {}", r.pick(&["CHF", "USD"]), dec_text(r, true)),
-                    _ => dec_text(r, true),
+                // an `amount` column is the statement's own figure: negated for a liability account
+                let (m, sc) = gen_num(r);
+                let a: Num = (r.chance(2, 5), m, sc);
+                let amount = money_cell(r, st, a);
+                let (bal, ibal) = if r.chance(1, 2) {
+                    let (m, sc) = gen_num(r);
+                    let b: Num = (r.chance(1, 4), m, sc);
+                    (money_cell(r, st, b), Some(b))
+                } else {
+                    (String::new(), None)
                 };
-                let bal = if r.chance(1, 2) { dec_text(r, true) } else { String::new() };
-                let fee = if r.chance(1, 4) { dec_text(r, false) } else { String::new() };
+                let (fee, ifee) = if r.chance(1, 4) {
+                    let (m, sc) = gen_num(r);
+                    let f: Num = (r.chance(1, 5), m, sc);
+                    (money_cell(r, st, f), if m == 0 { None } else { Some(f) })
+                } else {
+                    (String::new(), None)
+                };
+                intended.push(Intent { amount: Some((a.0 != liability, a.1, a.2)), balance: ibal, charge: ifee });
                 writeln!(t, "2021-10-{:02},{},{},{},{},{},{},{}", 1 + r.below(27), csv_field(&payee), csv_field(&amount), csv_field(&bal), csv_field(&note), csv_field(*r.pick(&["food", "misc"])), csv_field(&ccy), csv_field(&fee)).unwrap();
             }
             writeln!(y, "rewrite:\n  - matcher:\n      payee: \"^Debit (?P<code>[^ ]*) (?P<payee>.*)$\"\n  - matcher:\n      category: food\n    account: Expenses:Food").unwrap();
@@ -249,7 +318,11 @@ fn gen_csv(r: &mut Rng, st: &mut Stats) -> Run {
                 let (payee, ptag) = adv_text(r);
                 st.count(&format!("text:payee:{}", ptag));
                 let credit = r.chance(1, 2);
-                let a = dec_text(r, true);
+                // usually unsigned; a negative figure in the credit (debit) column is a reversal
+                let (m, sc) = gen_num(r);
+                let an: Num = (r.chance(1, 5), m, sc);
+                let a = money_cell(r, st, an);
+                intended.push(Intent { amount: Some((an.0 == credit, an.1, an.2)), balance: None, charge: None });
                 let conv = r.chance(1, 2);
                 let (sc, sctag) = if conv { commodity_text(r, "EUR") } else { (String::new(), "none") };
                 if conv {
@@ -258,7 +331,7 @@ fn gen_csv(r: &mut Rng, st: &mut Stats) -> Run {
                 let sc = if conv && (sc.is_empty() || sc == "CHF") { "EUR".to_string() } else { sc };
                 writeln!(t, "2021-10-{:02},{},{},{},{},{},{}", 1 + r.below(27), csv_field(&format!("Debit {} {}", *r.pick(&["1234", "A)B", "", "77", "Z-9", "8/8", "x;y", "12"]), payee)),
                     csv_field(if credit { &a } else { "" }), csv_field(if credit { "" } else { &a }),
-                    csv_field(&if conv { dec_text(r, true) } else { String::new() }), csv_field(&sc), csv_field(&if conv { format!("{}.{:04}", r.range(1, 200), r.below(10000)) } else { String::new() })).unwrap();
+                    csv_field(&if conv { let (m, s2) = gen_num(r); let neg = r.chance(1, 4); money_cell(r, st, (neg, m, s2)) } else { String::new() }), csv_field(&sc), csv_field(&if conv { format!("{}.{:04}", r.range(1, 200), r.below(10000)) } else { String::new() })).unwrap();
             }
             writeln!(y, "rewrite:\n  - matcher:\n      payee: \"(?s)^Debit (?P<code>[^ ]*) (?P<payee>.*)$\"\n  - matcher:\n      payee: Okane\n    account: Assets:Wire\n    pending: true").unwrap();
         }
@@ -271,11 +344,17 @@ fn gen_csv(r: &mut Rng, st: &mut Stats) -> Run {
                 let (note, ntag) = adv_text(r);
                 st.count(&format!("text:category:{}", ctag));
                 st.count(&format!("text:note:{}", ntag));
-                writeln!(t, "2021-10-{:02},{},{},{}", 1 + r.below(27), csv_field(&cat), csv_field(&note), csv_field(&dec_text(r, true))).unwrap();
+                let (m, sc) = gen_num(r);
+                let a: Num = (r.chance(2, 5), m, sc);
+                intended.push(Intent { amount: Some((a.0 != liability, a.1, a.2)), balance: None, charge: None });
+                writeln!(t, "2021-10-{:02},{},{},{}", 1 + r.below(27), csv_field(&cat), csv_field(&note), csv_field(&money_cell(r, st, a))).unwrap();
             }
         }
     }
-    Run { importer: "csv".into(), path: "in.csv".into(), input: t, yaml: y, records: n }
+    if new_to_old {
+        intended.reverse();
+    }
+    Run { importer: "csv".into(), path: "in.csv".into(), input: t, yaml: y, records: n, intended }
 }
 
 // ---------- Viseca ----------
@@ -319,7 +398,7 @@ fn gen_viseca(r: &mut Rng, st: &mut Stats) -> Run {
         writeln!(y, "format:\n{}", p.trim_end()).unwrap();
     }
     writeln!(y, "rewrite:\n  - matcher:\n      category: Telecommunication\n    account: Expenses:Telecom\n  - matcher:\n      payee: Okane\n    account: Assets:Wire\n    pending: true").unwrap();
-    Run { importer: "viseca".into(), path: "in.txt".into(), input: t, yaml: y, records: n }
+    Run { importer: "viseca".into(), path: "in.txt".into(), input: t, yaml: y, records: n, intended: vec![] }
 }
 
 // ---------- observation ----------
@@ -549,9 +628,16 @@ pub fn emit(sh: &mut Shards, st: &mut Stats, run: &Run, source: &str, nontrivial
     if st.samples.len() < 2 || (st.samples.len() < 5 && outcome != "roundtrip_ok" && text.len() < 1500) {
         st.sample(rep.clone(), 5);
     }
+    let num_term = |n: &Option<Num>| coq::opt(n.as_ref().map(|(neg, m, s)| format!("(mkd {} {} {})", coq::bool_(*neg), m, s)));
+    let intents = coq::list(run.intended.iter().map(|i| format!("(INT {} {} {})", num_term(&i.amount), num_term(&i.balance), num_term(&i.charge))));
+    if !run.intended.is_empty() {
+        st.count("runs_with_intended_values");
+    }
     let term = format!(
-        "CRun {} {} {} {} {} {}",
+        "CRun {} {} {} {} {} {} {} {}",
         coq::list(imp.precisions.iter().map(|(k, v)| format!("({}, {}%nat)", imptree::str_term(k), v))),
+        imptree::str_term(&imp.account),
+        intents,
         run.records,
         coq::list(trees.iter().map(imptree::tx_term)),
         coq::list(trees.iter().map(width_term)),
@@ -606,7 +692,7 @@ fn testdata_runs() -> Vec<Run> {
     };
     for (f, imp) in [("iso_camt.xml", "camt"), ("index_amount.csv", "csv"), ("label_credit_debit.csv", "csv"), ("csv_template.csv", "csv"), ("csv_multi_currency.csv", "csv"), ("viseca.txt", "viseca")] {
         if let Ok(input) = std::fs::read_to_string(dir.join(f)) {
-            let mut run = Run { importer: imp.into(), path: f.into(), input, yaml: yaml.clone(), records: 0 };
+            let mut run = Run { importer: imp.into(), path: f.into(), input, yaml: yaml.clone(), records: 0, intended: vec![] };
             // the number of records is read off the output itself for the repository's own files
             if let ImportRun::Ok(i) = imptree::run_import(run.input.as_bytes(), &run.yaml, &run.path, format_of(imp)) {
                 run.records = i.txns.len();
@@ -621,7 +707,7 @@ pub fn run(o: &Opts) {
     let mut st = Stats::new();
     // smaller files in the thorough tier: coqc memory grows with the size of the case literal
     let mut sh = Shards::new(&o.out, if o.thorough { o.shards * 6 } else { o.shards }, HEADER);
-    st.rule = "statement files for the three importers (Camt053 XML with payee captured from AddtlTxInf/AddtlNtryInf, code from AcctSvcrRef, currency attribute, charges, foreign amounts with rates; CSV in three layouts: amount/balance/note/category/commodity/charge columns, credit/debit with secondary amount and rate, template payee; Viseca text) whose text fields are drawn from an adversarial pool (`;`, LF/CR/CRLF, injected transaction text, leading `(` `*` `!`, double space, tab, `:tag:`, `key: value`, non-ASCII, outer white space incl. U+3000/U+00A0, 2 kB fields, empty) with varied amounts (grouping commas, currency prefix, scales 0-5) and configured precisions 0-30; import + to_double_entry, printed as ImportCmd does, re-read with parse_ledger; non-trivial = some text field holds a character outside [A-Za-z0-9 ]; distinct by input + configuration".into();
+    st.rule = "statement files for the three importers (Camt053 XML with payee captured from AddtlTxInf/AddtlNtryInf, code from AcctSvcrRef, currency attribute, charges, foreign amounts with rates; CSV in three layouts: amount/balance/note/category/commodity/charge columns, credit/debit with secondary amount and rate, template payee; Viseca text) whose text fields are drawn from an adversarial pool (`;`, LF/CR/CRLF, injected transaction text, leading `(` `*` `!`, double space, tab, `:tag:`, `key: value`, non-ASCII, outer white space incl. U+3000/U+00A0, 2 kB fields, empty) with varied amounts (grouping commas, scales 0-5; CSV amount / credit / debit / balance / charge / secondary-amount cells bare, commodity-suffixed or prefixed with `$` / a currency code and the minus sign before or after the prefix: -$1.46, $-1,950.25, -USD 5, USD -5; the generator's own figure for each cell is checked against the transaction read back) and configured precisions 0-30; import + to_double_entry, printed as ImportCmd does, re-read with parse_ledger; non-trivial = some text field holds a character outside [A-Za-z0-9 ]; distinct by input + configuration".into();
     st.assumptions.push("account names and the operator (charge payee) come from the configuration and are well-formed account names / plain text; only statement-file text is adversarial".into());
     st.assumptions.push("amount fields of the statement files are valid numbers (malformed amounts are property C06/C16 territory)".into());
     let (corpus, replay) = corpus_runs(&o.corpus, &o.extra);
